@@ -53,6 +53,9 @@ CHECKS = {
  "C16": ("exploration", "runtime monitor: per-(source,destination) sequence equality on unique envelope ids at scripted peers around a real Proxy (credit-bounded), proto.Equal modulo routing fields, drop-counter hook; RPC workloads of C01/C02 through client-proxy-Demux-Serve; burst family with loss-accounting oracle",
          "Uniquely numbered envelopes from 1..8 attached peers to attached, dial-on-demand, aliased, blocked and unknown destinations under 4 rewriting functions: exactly-once, in-order, unaltered (modulo ProxyRecord/ProxyNext/rewritten destination) delivery to the right peer with zero drops while <=12 are outstanding per destination; C01/C02 workloads through the proxy topology must pass their own oracles. Above the buffer, loss must be exactly what the drop hook counted (known finding F12), never reordering or duplication.",
          "Real-time order between different sources is not constrained (not promised by the proxy); the burst finding is recorded in known_findings.json.", "DESIGN.md 2/C16"),
+ "C17": ("fault_enumeration", "scripted hostile/failing peers around a real Proxy in one-case child processes; crash = violation; delivery-progress oracle at final states; table/callback accessors; goroutine-leak check after context cancellation placed after every step",
+         "Spoofed / empty / absent sources never forwarded and never fatal; envelope-by-envelope traffic between two healthy peers keeps arriving while a third peer is a stuck writer, failing reader, failing writer, undialable or slow to dial; failed connections are reported and removed without touching a newer connection under the same name (re-attach before/after the failure); after cancelling the context at each step Serve has returned and no Proxy/proxyClient goroutine is left at the final state.",
+         "Cancellation positions are per scripted step; goroutine attribution by stack frames; all harness transports honour contexts.", "DESIGN.md 2/C17"),
 }
 NOT_YET = "check not built yet in this round (runtime-monitoring design in DESIGN.md section 2); will be claimed once its monitor exists"
 
